@@ -233,6 +233,7 @@ PROFILE_EXTRA = [
     ('attlist', '<!DOCTYPE a [<!ATTLIST a x CDATA #FIXED "v" y ID #IMPLIED>]><a y=" i "/>'),
     ('attlist', '<!DOCTYPE a [<!ENTITY e "v"><!ATTLIST a x CDATA "&e;">]><a/>'),
     ('attlist', '<!DOCTYPE a [<!ATTLIST b x CDATA "d">]><a><b/><b x="s"/></a>'),
+    ('attlist', '<!DOCTYPE a [<!ATTLIST a xmlns:p CDATA "u">]><a xmlns:p="v"/>'), ('attlist', '<!DOCTYPE a [<!ATTLIST a xmlns CDATA "u">]><a xmlns="v"/>'),    # D65 (repaired in 703c414)
     ('doctype', '<!DOCTYPE p:a [<!ELEMENT p:a EMPTY>]><p:a xmlns:p="u"/>'),
     ('doctype', '<!DOCTYPE a [<?p in dtd?><!--c--><!NOTATION n SYSTEM "s"><!ENTITY u SYSTEM "f" NDATA n><!ENTITY u SYSTEM "g" NDATA n>]><a/>'),
     ('pi', '<?p?><a/>'), ('pi', '<?p ?><a/>'), ('pi', '<?p   x ?><a/>'), ('pi', '<a><?p a?b?></a><?q  ?>'),
